@@ -181,8 +181,9 @@ func prepareReassembly(bs []Bundle) error {
 			return fmt.Errorf("next fragment starts at offset %d, gap from %d to %d", fragOff, lastIndex, fragOff)
 		} else if payloadBlock, err := b.PayloadBlock(); err != nil {
 			return err
-		} else {
-			lastIndex = fragOff + uint64(len(payloadBlock.Value.(*PayloadBlock).Data()))
+		} else if fragEnd := fragOff + uint64(len(payloadBlock.Value.(*PayloadBlock).Data())); fragEnd > lastIndex {
+			// A fragment lying completely within the already covered range must not move the mark backwards.
+			lastIndex = fragEnd
 		}
 	}
 
@@ -215,6 +216,15 @@ func mergeFragmentPayload(bs []Bundle) (data []byte, err error) {
 			return
 		}
 		fragPayloadData = fragPayloadBlock.Value.(*PayloadBlock).Data()
+
+		if fragStartIndex < 0 || fragStartIndex > lastIndex {
+			err = fmt.Errorf("fragment at offset %d leaves a gap after %d", b.PrimaryBlock.FragmentOffset, lastIndex)
+			return
+		}
+		if len(fragPayloadData) <= lastIndex-fragStartIndex {
+			// This fragment is completely covered by its predecessors (duplicate or overlap).
+			continue
+		}
 
 		data = append(data, fragPayloadData[lastIndex-fragStartIndex:]...)
 		lastIndex = fragStartIndex + len(fragPayloadData)
